@@ -68,6 +68,7 @@ class Contract:
         self.returns = d.get('returns')
         self.pure = bool(d.get('pure', False))
         self.assume_at_call = tuple(d.get('assume_at_call', ()))
+        self.tier = d.get('tier', 'quick')
         self.inline = bool(d.get('inline', False))
         self.frame_on_raise = bool(d.get('frame_on_raise', True))
         self.allowed = tuple(resolve_exception(x) if isinstance(x, str) else x for x in d.get('allowed', ()))
